@@ -87,6 +87,14 @@ func gen(t *rapid.T) Case {
 	c := Case{Reboot: rapid.Bool().Draw(t, "reboot"), Shard: rapid.IntRange(0, 2).Draw(t, "shard")}
 	n := rapid.IntRange(2, 14).Draw(t, "nops")
 	kinds := []string{"create", "create", "create", "complete", "complete", "complete", "delete", "ban", "unban", "setmd", "setmd", "delmd", "writeatmd"}
+	// Two thirds of the workloads start with one or two completed blobs, so that the random
+	// tail spends its operations (metadata, bans, deletes, evicting creates) on complete blobs.
+	if rapid.IntRange(0, 2).Draw(t, "prefix") != 0 {
+		for k := 0; k < rapid.IntRange(1, 2).Draw(t, "prefixblobs"); k++ {
+			sz := rapid.IntRange(1, 40).Draw(t, "psize")
+			c.Ops = append(c.Ops, Op{Kind: "create", Key: k, Size: sz, Data: rapid.SliceOfN(rapid.Byte(), sz, sz).Draw(t, "pdata")}, Op{Kind: "complete", Key: k})
+		}
+	}
 	for i := 0; i < n; i++ {
 		op := Op{Kind: rapid.SampledFrom(kinds).Draw(t, "kind"), Key: rapid.IntRange(0, len(keys)-1).Draw(t, "key")}
 		switch op.Kind {
@@ -413,6 +421,26 @@ func judge(c Case, snapDir, work string, before, after mstate, lenient map[int]b
 			if err != nil || !bytes.Equal(got, b.data) {
 				return fmt.Sprintf("blob %s completed before the crash reads %x, %v after reopening (want %x)", name, got, err, b.data), nil
 			}
+			// A metadata operation in flight on this blob may have happened or not: the value
+			// is the one before or the one after, never unreadable and never a third value.
+			if inOp != nil && inOp.Key == k && (inOp.Kind == "setmd" || inOp.Kind == "delmd" || inOp.Kind == "writeatmd") && inOp.MD == 0 {
+				m := newMD(0, nil)
+				ok, err := s.GetMetadata(name, m)
+				if err != nil {
+					return fmt.Sprintf("blob %s: metadata %s cannot be read after a crash inside %s: %v", name, m.suffix, inOp.Kind, err), nil
+				}
+				wantB, hasB := b.md[0]
+				var wantA []byte
+				hasA := false
+				if ab := after[k]; ab != nil {
+					wantA, hasA = ab.md[0]
+				}
+				matchB := (ok == hasB) && (!ok || bytes.Equal(m.V, wantB))
+				matchA := (ok == hasA) && (!ok || bytes.Equal(m.V, wantA))
+				if !matchB && !matchA {
+					return fmt.Sprintf("blob %s: after a crash inside %s metadata %s is present=%v value=%x: neither the value before (present=%v %x) nor the value after (present=%v %x)", name, inOp.Kind, m.suffix, ok, m.V, hasB, wantB, hasA, wantA), nil
+				}
+			}
 			continue
 		}
 		if c.Reboot && !contains(il, name) && !contains(cl, name) {
@@ -630,7 +658,7 @@ func TestProp(t *testing.T) {
 	pbt.Main(t, pbt.Spec{
 		ID:    "C06",
 		Level: "fault_enumeration",
-		Rule: "rapid generates workloads (2-14 ops over 4 keys: create+write, complete, delete, ban, unban, set/delete/write-at metadata; capacity 100 so creates evict) x {reboot incomplete on/off} x {shard length 0,1,2}; each runs in a child under ptrace and EVERY prefix of its store-mutating system calls is snapshotted and recovered from (evaluations = recovered crash states, deduplicated per workload by tree hash+expectation); oracle: NewStore succeeds, blobs completed by returned ops are listed complete with bytes/movable metadata/ban flag (ban observed via Clean), nothing else is complete, incomplete blobs dropped or restored with the size given to Create (observed through Clean's utilisation at capacity 100), every key can then be created, written and completed; the key of the in-flight op is judged leniently only in what that op changes (a completion/ban/metadata op in flight must not lose the blob or its bytes; with reboot on, incomplete blobs of returned Creates must be restored with their bytes); keys an in-flight Create evicts are lenient. non-trivial = crash state strictly inside an operation whose tree differs from the trees at that operation's start and end; distinct by (config, tree hash)",
+		Rule: "rapid generates workloads (2-14 ops over 4 keys, two thirds of them after a prefix that creates and completes one or two blobs: create+write, complete, delete, ban, unban, set/delete/write-at metadata; capacity 100 so creates evict) x {reboot incomplete on/off} x {shard length 0,1,2}; each runs in a child under ptrace and EVERY prefix of its store-mutating system calls is snapshotted and recovered from (evaluations = recovered crash states, deduplicated per workload by tree hash+expectation); oracle: NewStore succeeds, blobs completed by returned ops are listed complete with bytes/movable metadata/ban flag (ban observed via Clean), nothing else is complete, incomplete blobs dropped or restored with the size given to Create (observed through Clean's utilisation at capacity 100), every key can then be created, written and completed; the key of the in-flight op is judged leniently only in what that op changes (a completion/ban/metadata op in flight must not lose the blob or its bytes; with reboot on, incomplete blobs of returned Creates must be restored with their bytes); keys an in-flight Create evicts are lenient. non-trivial = crash state strictly inside an operation whose tree differs from the trees at that operation's start and end; distinct by (config, tree hash)",
 		Assumptions: []string{
 			"process-crash model: completed system calls persist, nothing later happens; a single write system call is atomic",
 			"the model of returned operations takes evictions from the implementation's own listing (C07 checks those against the LRU model)",
